@@ -31,6 +31,10 @@ pub struct History {
     pub file: bool,
     pub pools: Pools,
     pub steps: Vec<Step>,
+    /// between the steps only point lookups (which read inside the open write transaction) are compared; the full
+    /// scans, which commit the transaction, run after a reopen and at the end - so consecutive offers share a transaction
+    #[serde(default)]
+    pub sparse_observe: bool,
 }
 
 #[derive(Serialize, Deserialize, Clone, Debug)]
@@ -75,8 +79,8 @@ impl Prop for C02 {
 
     fn strategy(tier: Tier) -> BoxedStrategy<Case> {
         let max_steps = tier.pick(20, 60);
-        let hist = (prop::bool::weighted(0.25), pools(8), vec(step(), 1..=max_steps))
-            .prop_map(|(file, pools, steps)| Case::History(History { file, pools, steps }));
+        let hist = (prop::bool::weighted(0.25), pools(8), vec(step(), 1..=max_steps), prop::bool::weighted(0.4))
+            .prop_map(|(file, pools, steps, sparse_observe)| Case::History(History { file, pools, steps, sparse_observe }));
         let perm = (pools(6), vec(egen(), 1..=8))
             .prop_flat_map(|(pools, entries)| {
                 let n = entries.len();
@@ -121,6 +125,9 @@ fn ff_edge(model: &Model, e: &SignedEntry) -> bool {
 fn check_history(ctx: &mut Ctx, h: &History) -> Outcome {
     let mut o = Outcome::default();
     o.class(if h.file { "history/file" } else { "history/memory" });
+    if h.sparse_observe {
+        o.class("history/offers-share-a-transaction(point-lookups-only-between-steps)");
+    }
     let r: R<()> = (|| {
         let keys = h.pools.keys();
         let authors = h.pools.authors();
@@ -221,6 +228,28 @@ fn check_history(ctx: &mut Ctx, h: &History) -> Outcome {
                     ),
                 );
                 break;
+            }
+            if h.sparse_observe && i + 1 != h.steps.len() {
+                // point lookups of every key the model holds or held for this author (no scan, no commit)
+                let a = entry.author();
+                let mut keys_: Vec<Vec<u8>> = before.m.keys().chain(model.m.keys()).filter(|(ca, _)| *ca == a.to_bytes()).map(|(_, k)| k.clone()).collect();
+                keys_.sort();
+                keys_.dedup();
+                for k in keys_ {
+                    let got = es(st.store.get_exact(ns, a, &k, true))?;
+                    let want = model.m.get(&(a.to_bytes(), k.clone())).cloned();
+                    if got != want {
+                        o.fail(
+                            "C02/state",
+                            format!("step {i} offering {} to state {}: get_exact({}) = {:?}, model {:?}", describe(&entry), describe_all(&before.dump()), hex::encode(&k), got.as_ref().map(describe), want.as_ref().map(describe)),
+                        );
+                        break;
+                    }
+                }
+                if o.failed() {
+                    break;
+                }
+                continue;
             }
             let d = dump(&mut st.store, ns)?;
             if d != model.dump() {
